@@ -340,6 +340,23 @@ kernel('G16b_optional', 'bisturi/structural_fields.py', [('Optional', '__init__'
 kernel('G16c_prototype', 'bisturi/packet.py', [('Prototype', '__init__'), ('Prototype', '_clone_from_pickle'), ('Prototype', '_clone_from_live_obj')], 'PrototypeGen', {}, extra='Definition prototype_template_matched : bool := true.')
 
 
+# ---- template-only kernels for the plumbing that the model describes as data (Decl.describe, the expression language, the
+# count / when normalisers, the field constructors): "this is the code the model was written against"
+kernel('G17_builder', 'bisturi/packet_builder.py', [(None, '_trace'), ('PacketClassBuilder', '__init__'), ('PacketClassBuilder', 'bisturi_configuration_default'), ('PacketClassBuilder', 'make_configuration'), ('PacketClassBuilder', 'create_field_name_from_subpacket_name'), ('PacketClassBuilder', 'collect_the_fields_from_class_definition'), ('PacketClassBuilder', 'ask_to_each_field_to_describe_itself'), ('PacketClassBuilder', 'compile_fields_and_create_slots'), ('PacketClassBuilder', 'compile_descriptors_and_extend_slots'), ('PacketClassBuilder', 'lookup_pack_unpack_methods'), ('PacketClassBuilder', 'remove_fields_from_class_definition'), ('PacketClassBuilder', 'add_descriptors_to_class_definition'), ('PacketClassBuilder', 'collect_sync_methods_from_field_descriptors'), ('PacketClassBuilder', 'create_class'), ('PacketClassBuilder', 'add_get_fields_class_method'), ('PacketClassBuilder', 'add_sync_descriptor_class_methods'), ('PacketClassBuilder', 'check_if_we_are_in_debug_mode'), ('PacketClassBuilder', 'create_optimized_code'), ('PacketClassBuilder', 'get_packet_class'), ('PacketClassBuilder', 'create_collect_and_describe_the_field_list'), ('PacketClassBuilder', 'compile_fields_and_descriptors_and_create_slots'), ('PacketClassBuilder', 'collect_fields_sourcecode'), ('PacketClassBuilder', 'create_packet_class_and_add_its_special_methods'), ('PacketClassBuilder', 'remove_fields_from_and_add_descriptors_to_class_definition'), ('PacketClassBuilder', 'optimize_methods'), ('PacketSpecializationClassBuilder', '__init__'), ('PacketSpecializationClassBuilder', 'bisturi_configuration_default'), ('PacketSpecializationClassBuilder', 'specialize_fields'), ('MetaPacket', '__new__')], 'BuilderGen', {},
+       extra='Definition builder_template_matched : bool := true.')
+kernel('G13b_deferred_ops', 'bisturi/deferred.py',
+       [('Operations', '__init__'), ('Operations', 'append'), ('Operations', 'as_list'), (None, '_defer_operations_of'), (None, 'defer_operations')],
+       'DeferredOpsGen', {}, extra='Definition deferred_ops_template_matched : bool := true.')
+kernel('G18_conditions', 'bisturi/structural_fields.py',
+       [(None, 'normalize_raw_condition_into_a_callable'), (None, 'convert_a_field_raw_condition_into_a_boolean_unary_expression'),
+        (None, 'normalize_count_condition_into_a_callable'), ('Sequence', 'repeated'), ('Sequence', 'when'), ('Optional', 'repeated'), ('Optional', 'when')],
+       'ConditionsGen', {}, extra='Definition conditions_template_matched : bool := true.')
+kernel('G19_field_ctor', 'bisturi/field.py',
+       [(None, 'exec_once'), ('Field', '__init__'), ('Field', 'unpack'), ('Field', 'pack'), ('Field', 'unpack_noop'), ('Field', 'pack_noop'),
+        ('Int', '__init__'), ('Int', 'unpack'), ('Int', 'pack'), ('Data', '__init__'), ('Data', '_compile'), ('Data', 'unpack'), ('Em', '__init__')],
+       'FieldCtorGen', {}, extra='Definition field_ctor_template_matched : bool := true.')
+
+
 def translate_kernel(kid):
     k = KERNELS[kid]
     src_path = os.path.join(REPO, k['pyfile'])
